@@ -452,7 +452,7 @@ def doConc (st : St) (toks : List String) : St × String :=
       | none => (st, "model-cannot-follow")
       | some c =>
         if c.threads.all (fun t => isDone t.prog) then
-          let res := ";".intercalate (c.threads.map fun t => match t.prog with | .done rs => ",".intercalate rs | _ => "?")
+          let res := ";".intercalate (c.threads.map fun t => match t.prog with | .done rs => "+".intercalate rs | _ => "?")
           let st' := { st with s := c.store }
           (st', s!"res={res} dump={dump st'}")
         else (st, "model-unfinished")
